@@ -1,0 +1,105 @@
+// Copyright © 2022-2026 Obol Labs Inc. Licensed under the terms of a Business Source License 1.1
+
+//go:build verif
+
+// Verification contracts (comments only; read by /verif/govc, never compiled into charon).
+package validatorapi
+
+//@ pure Component.getVerifyShareFunc core.VerifyEth2SignedData core.PubKeyFromBytes
+
+// verifiedSig(c, p, pk): p passed the partial-signature verification of component c for validator pk.
+// It is an uninterpreted ghost predicate whose ONLY source is the axiom below (a successful
+// verifyPartialSig under some context; the context carries only tracing/logging values), so in its
+// least interpretation it means exactly "some call verifyPartialSig(_, p, pk) returned nil".
+//@ spec func verifiedSig(c Component, p core.ParSignedData, pk core.PubKey) bool
+//@ axiom verifiedSigIntro: all(c, Component, all(p, core.ParSignedData, all(pk, core.PubKey, all(x, context.Context, c.verifyPartialSig(x, p, pk) == nil ==> verifiedSig(c, p, pk)))))
+
+// okSet: every entry carries this node's share index and is verified for its validator.
+//@ spec func okSet(c Component, s core.ParSignedDataSet) bool = forallk(pk, s, s[pk].ShareIdx == c.shareIdx && verifiedSig(c, s[pk], pk))
+//@ spec func okSetsU(c Component, m map[uint64]core.ParSignedDataSet) bool = forallk(k, m, okSet(c, m[k]))
+//@ spec func okSetsS(c Component, m map[eth2p0.Slot]core.ParSignedDataSet) bool = forallk(k, m, okSet(c, m[k]))
+//@ spec func okSetsK(c Component, m map[slotSubcomm]core.ParSignedDataSet) bool = forallk(k, m, okSet(c, m[k]))
+
+//@ func (c Component) verifyPartialSig
+//@ props C10 C01
+//@ pure
+//@ ensures result == nil && !c.insecureTest ==> res(1, c.getVerifyShareFunc(pubkey)) == nil
+//@ ensures result == nil && !c.insecureTest ==> core.VerifyEth2SignedData(ctx, c.eth2Cl, parSig.SignedData.(core.Eth2SignedData), res(0, c.getVerifyShareFunc(pubkey))) == nil
+//@ canary result != nil
+
+//@ func (c Component) SubmitAttestations
+//@ props C10 C01
+//@ callreq sub: okSet(c, a3)
+//@ callreq sub: a2 == core.NewAttesterDuty(slot)
+//@ loop 1 invariant okSetsU(c, setsBySlot) && ncalls(sub) == 0
+//@ loop 2 invariant true
+//@ loop 3 invariant true
+//@ loop 4 invariant true
+
+//@ func (c Component) Proposal
+//@ props C10 C01
+//@ callreq sub: okSet(c, a3)
+//@ callreq sub: a2 == core.NewRandaoDuty(uint64(opts.Slot))
+//@ loop 1 invariant true
+
+//@ func (c Component) SubmitProposal
+//@ props C10 C01
+//@ callreq sub: okSet(c, a3)
+//@ callreq sub: a2 == duty
+//@ loop 1 invariant true
+
+//@ func (c Component) SubmitBlindedProposal
+//@ props C10 C01
+//@ callreq sub: okSet(c, a3)
+//@ callreq sub: a2 == duty
+//@ loop 1 invariant true
+
+//@ func (c Component) SubmitVoluntaryExit
+//@ props C10 C01
+//@ callreq sub: okSet(c, a3)
+//@ callreq sub: a2 == duty
+//@ loop 1 invariant true
+
+//@ func (c Component) BeaconCommitteeSelections
+//@ props C10 C01
+//@ callreq sub: okSet(c, a3)
+//@ callreq sub: a2 == core.NewPrepareAggregatorDuty(uint64(slot))
+//@ loop 1 invariant okSetsS(c, psigsBySlot) && ncalls(sub) == 0
+//@ loop 2 invariant true
+//@ loop 3 invariant true
+//@ loop 4 invariant true
+//@ loop 5 invariant true
+
+//@ func (c Component) SubmitAggregateAttestations
+//@ props C10 C01
+//@ callreq sub: okSet(c, a3)
+//@ callreq sub: a2 == core.NewAggregatorDuty(uint64(slot))
+//@ loop 1 invariant okSetsS(c, psigsBySlot) && ncalls(sub) == 0
+//@ loop 2 invariant true
+//@ loop 3 invariant true
+
+//@ func (c Component) SubmitSyncCommitteeMessages
+//@ props C10 C01
+//@ callreq sub: okSet(c, a3)
+//@ callreq sub: a2 == core.NewSyncMessageDuty(uint64(slot))
+//@ loop 1 invariant okSetsS(c, psigsBySlot) && ncalls(sub) == 0
+//@ loop 2 invariant true
+//@ loop 3 invariant true
+
+//@ func (c Component) SubmitSyncCommitteeContributions
+//@ props C10 C01
+//@ callreq sub: okSet(c, a3)
+//@ callreq sub: a2 == core.NewSyncContributionDuty(uint64(key.Slot))
+//@ loop 1 invariant okSetsK(c, psigsBySlotSubcomm) && ncalls(sub) == 0
+//@ loop 2 invariant true
+//@ loop 3 invariant true
+
+//@ func (c Component) SyncCommitteeSelections
+//@ props C10 C01
+//@ callreq sub: okSet(c, a3)
+//@ callreq sub: a2 == core.NewPrepareSyncContributionDuty(uint64(key.Slot))
+//@ loop 1 invariant okSetsK(c, psigsBySlotSubcomm) && ncalls(sub) == 0
+//@ loop 2 invariant true
+//@ loop 3 invariant true
+//@ loop 4 invariant true
+//@ loop 5 invariant true
